@@ -52,11 +52,80 @@ def enclosing_tests(fdef, target):
     return out
 
 
+def line_comment_rule(report, index, M, T, rid):
+    """a printed line comment is followed by a line break (the marks of
+    the LineComment definition evaluated through process_layouts)"""
+    D = M.definitions
+    r7 = report.rule(rid, 'a printed line comment is followed by a line '
+                     'break whatever its text and the depth (the marks '
+                     'after the comment evaluated through process_layouts)',
+                     floor=20)
+    from engine.layout import process_run, RULETYPES_MOD
+    from engine.srcindex import Sym as _Sym
+    for cname in ('LineComment', 'BlockComment'):
+        if cname not in D.defs:
+            raise AnalysisError('definition %s vanished' % cname)
+        terms = [x for x in D.defs[cname] if x.kind != 'struct']
+        if not terms or terms[0].kind != 'attr':
+            raise AnalysisError('definition %s has an unexpected shape'
+                                % cname)
+        marks = [x.name for x in terms[1:] if x.kind == 'layout']
+        if len(marks) != len(terms) - 1:
+            raise AnalysisError('definition %s prints more than the '
+                                'comment and layout marks' % cname)
+        texts = ('//c', '//c ', '//c\t', '//c\xa0', '//', '// x;',
+                 '//c\x0b', '//\u3000') if cname == 'LineComment' else (
+                     '/*c*/', '/* c */', '/*\n*/')
+        for indent_str in ('  ', '\t', ''):
+            tab = T.table('indent', indent_str=indent_str)[
+                'layout_handlers']
+            run = [(_Sym(RULETYPES_MOD, mk), cname) for mk in marks
+                   if _Sym(RULETYPES_MOD, mk) in tab]
+            for level in (0, 2):
+                for text in texts:
+                    for after in ('b', '}', None):
+                        for hh in tab.values():
+                            if hh.kind == 'method' and hh.obj is not None \
+                                    and hh.obj.has('_level'):
+                                hh.obj._level = level
+                        out = process_run(T, tab, run, text, after,
+                                          M.astmodel, indent_str=indent_str)
+                        for hh in tab.values():
+                            if hh.kind == 'method' and hh.obj is not None \
+                                    and hh.obj.has('_level'):
+                                hh.obj._level = 0
+                        if cname == 'BlockComment':
+                            # a block comment needs no line break; only
+                            # the line comment swallows what follows
+                            r7.ok('block comment')
+                            continue
+                        joined = ''.join(out)
+                        r7.check(joined[:1] in ('\n', '\r'),
+                                 'line comment %r indent %r' % (
+                                     text, indent_str),
+                                 'LineComment %r, %s at depth %d, followed '
+                                 'by %r' % (text, ' '.join(marks), level,
+                                            after),
+                                 'the marks after the comment print %r: no '
+                                 'line break directly after the comment, so '
+                                 'what is printed next becomes part of it'
+                                 % (joined,),
+                                 where='handlers/indentation.py / '
+                                 'unparsers/es5.py:LineComment',
+                                 witness='%s\nb;' % text)
+    return r7
+
+
 def run(report, index, tier):
     M = models(index)
     from .c20 import guard_tokens, guard_transcriptions
     guard_tokens(report, index, M)
     guard_transcriptions(index, M, report, depth=2)
+    from . import c14
+    c14.rules(report, index)
+    from .tokens import deferrable_rule
+    deferrable_rule(report, index, 'R13.8',
+                    only=('LineComment', 'BlockComment'))
     g, A, am = M.grammar, M.actions, M.astmodel
     lm = index.need(LEX)
     pm = index.need(PAR)
@@ -116,8 +185,11 @@ def run(report, index, tier):
         lexer = mk_lexer_obj(lm=M.lexmodel)
         lexer.with_comments = wc
         lexer.yield_comments = yc
-        lexer.lexer = Obj('PlyLexer', lexdata='ab', lexpos=0)
-        lexer._get_update_token = ('pyfunc', lambda it=it: next(it))
+        lexer.lexer = Obj('PlyLexer', lexdata='ab', lexpos=0,
+                          begin=('pyfunc', lambda state: None))
+        # only the raw token source is a stand-in: _get_update_token and
+        # _set_tokens (the line terminator evidence) are the real ones
+        lexer.get_lexer_token = ('pyfunc', lambda it=it: next(it))
         got = []
         for _ in range(3):
             ev = Evaluator(lm, 'Lexer', lmeth, {})
@@ -125,24 +197,41 @@ def run(report, index, tier):
             if ret is None:
                 break
             got.append(ret)
-        return stream, got
+        # the insertion predicate the parser consults after these tokens
+        semi = []
+        asemi = lmeth.get('auto_semi')
+        if asemi is None:
+            raise AnalysisError('Lexer.auto_semi vanished')
+        for probe in ('ID', 'RBRACE', 'SEMI', None):
+            ptok = None if probe is None else Obj(
+                'LexToken', type=probe, value='p', lineno=1, lexpos=3,
+                colno=4)
+            saved = list(lexer.next_tokens)
+            ev = Evaluator(lm, 'Lexer', lmeth, {
+                'AutoLexToken': lambda: Obj('AutoLexToken')})
+            ret, _ys = ev.call(asemi, [ptok], self_obj=lexer)
+            semi.append((probe, ret.type if isinstance(ret, Obj) else ret))
+            lexer.next_tokens = saved
+        return stream, got, semi
     for ttype in types:
         results = {}
         for wc in (False, True):
             for yc in (False, True):
                 try:
-                    stream, got = token_stream(ttype, wc, yc)
-                    results[(wc, yc)] = [
+                    stream, got, semi = token_stream(ttype, wc, yc)
+                    results[(wc, yc)] = ([
                         stream.index(t) for t in got
-                        if t.type not in ('LINE_COMMENT', 'BLOCK_COMMENT')]
+                        if t.type not in ('LINE_COMMENT', 'BLOCK_COMMENT')],
+                        semi)
                 except Raised as e:
                     results[(wc, yc)] = 'raises %s' % e.text
         base = results[(False, False)]
         r1.check(all(v == base for v in results.values()),
                  'token stream %s independent of the flags' % ttype,
-                 'Lexer.token() on [%s, ID] under the four flag '
-                 'combinations' % ttype,
-                 'the non-comment tokens returned depend on the capture '
+                 'Lexer.token() on [%s, ID], then auto_semi, under the '
+                 'four flag combinations' % ttype,
+                 'the non-comment tokens returned, or the semicolon '
+                 'insertion decisions after them, depend on the capture '
                  'flags: %r' % (results,),
                  where='lexers/es5.py:Lexer.token / _token')
     # Node.setpos: the flag decides only whether set_comments is called
@@ -223,7 +312,7 @@ def run(report, index, tier):
                              where='%s:%s' % (m.name, f.name))
     # R13.2 ---------------------------------------------------------------
     r2 = report.rule('R13.2', 'set_comments: verbatim, positioned, in '
-                     'source order (decision table)', floor=3)
+                     'source order (decision table)', floor=6)
 
     def mkcomment(kind):
         def ctor(value):
@@ -239,6 +328,12 @@ def run(report, index, tier):
         [('BLOCK_COMMENT', '/*a\n*/', 0, 1, 1), ('BLOCK_COMMENT', '/*b*/',
                                                  8, 2, 3),
          ('LINE_COMMENT', '//c', 14, 2, 9)],
+        # blanks at either end of the comment text are part of it
+        [('LINE_COMMENT', '// note  \t', 0, 1, 1)],
+        [('LINE_COMMENT', '//x\xa0', 2, 1, 3), ('BLOCK_COMMENT',
+                                                '/* y \n */ ', 9, 2, 1)],
+        [('BLOCK_COMMENT', '/**/', 5, 3, 2), ('LINE_COMMENT', '//', 9, 3,
+                                              6)],
     ]
     for case in cases:
         toks = [Obj('LexToken', type=t, value=v, lexpos=lp, lineno=ln,
@@ -259,6 +354,10 @@ def run(report, index, tier):
             cs = node.comments
             got = [(c.__dict__['_cls'], c.value, c.lexpos, c.lineno,
                     c.colno) for c in cs.children]
+            for c in cs.children:
+                tm = c._token_map if c.has('_token_map') else None
+                if tm != {c.value: [(c.lexpos, c.lineno, c.colno)]}:
+                    got.append(('token map of %r' % c.value, tm))
             gotpos = (cs.lexpos, cs.lineno, cs.colno)
         except (Raised, AnalysisError) as e:
             got, gotpos = 'error %s' % e, None
@@ -267,7 +366,7 @@ def run(report, index, tier):
                 for t, v, lp, ln, cn in case]
         wantpos = tuple(case[0][2:])
         r2.check(got == want and gotpos == wantpos,
-                 'set_comments %d tokens' % len(case),
+                 'set_comments %s' % ' '.join(repr(c[1]) for c in case),
                  'Node.set_comments on %s' % [c[1] for c in case],
                  'attaches %s at %s; expected %s at %s' % (
                      got, gotpos, want, wantpos),
@@ -400,6 +499,7 @@ def run(report, index, tier):
                      'the comment %r is printed as %r: the re-parsed tree '
                      'carries a different comment' % (text, ret),
                      where='handlers/core.py:%s' % h.name)
+    line_comment_rule(report, index, M, T, 'R13.7')
     # R13.6 ---------------------------------------------------------------
     r6 = report.rule('R13.6', 'a node that can receive comments prints '
                      'them first (CommentsAttr leads its definition)',
